@@ -179,7 +179,8 @@ def run_driver(lines, shards=NCPU, timeout=7200):
     """lines: list[str] (without newline). Returns list[str] answers, same order."""
     if not lines:
         return []
-    shards = max(1, min(shards, (len(lines) + 199) // 200))
+    nbytes = sum(len(l) for l in lines)
+    shards = max(1, min(shards, max((len(lines) + 199) // 200, nbytes // 200000), len(lines)))
     procs = []
     for i in range(shards):
         part = lines[i::shards]      # round-robin so that expensive cases spread over the shards
